@@ -136,6 +136,11 @@ type Sig struct {
 	Runaway  bool
 	AfterHit int // probe calls that happened after the signal was observed true
 	Limit    int // max probe calls after firing before the probe aborts the run (0 = 100)
+	// RaiseAtRec > 0: the host raises the flag while the RaiseAtRec-th probe call is executing (between two
+	// polls); every later poll reports true. AfterRaise counts the probe calls made after that moment.
+	RaiseAtRec int
+	Raised     bool
+	AfterRaise int
 }
 
 type abortRun struct{}
@@ -156,7 +161,10 @@ func (s *Sig) ExitSignal() bool {
 	if s.FireAt > 0 && s.Polls >= s.FireAt {
 		s.Fired = true
 	}
-	if s.FireAt <= 0 && s.Polls > RunawayPolls {
+	if s.Raised {
+		s.Fired = true
+	}
+	if s.FireAt <= 0 && !s.Raised && s.Polls > RunawayPolls {
 		s.Runaway = true
 		return true
 	}
@@ -169,6 +177,17 @@ func (s *Sig) add(r Rec) {
 	r.Fired = s.Fired
 	s.Trace = append(s.Trace, r)
 	abort := len(s.Trace) > 200000 // runaway run: stop it before it exhausts memory
+	if s.Raised {
+		s.AfterRaise++
+		lim := s.Limit
+		if lim == 0 {
+			lim = 100
+		}
+		abort = abort || s.AfterRaise >= lim
+	}
+	if s.RaiseAtRec > 0 && len(s.Trace) == s.RaiseAtRec {
+		s.Raised = true
+	}
 	if s.Fired {
 		s.AfterHit++
 		lim := s.Limit
@@ -284,13 +303,24 @@ func (t *Trace2) add(r Rec) {
 			}
 			abort = t.Sig.AfterHit >= lim
 		}
-		t.Sig.mu.Unlock()
+		if t.Sig.Raised {
+			t.Sig.AfterRaise++
+			lim := t.Sig.Limit
+			if lim == 0 {
+				lim = 100
+			}
+			abort = abort || t.Sig.AfterRaise >= lim
+		}
 		t.mu.Lock()
 		t.Trace = append(t.Trace, r)
 		if len(t.Trace) > 200000 {
 			abort = true
 		}
+		if t.Sig.RaiseAtRec > 0 && len(t.Trace) == t.Sig.RaiseAtRec {
+			t.Sig.Raised = true
+		}
 		t.mu.Unlock()
+		t.Sig.mu.Unlock()
 		if abort {
 			panic(AbortSentinel)
 		}
